@@ -2,6 +2,8 @@
 
 from itertools import product
 
+from vf.common import fresh as _fresh
+
 ID = "C13"
 RULE = ("seeded undirected multigraphs (ties, negative/dyadic weights, duplicate pairs with different weights, "
         "self loops, isolated nodes, 2-4 components, arbitrary hashable labels and any start for prim) plus every "
@@ -289,15 +291,15 @@ def _run_graph(case, obs, budget=100_000):  # observed maximum on the unchanged 
         r.shuffle(order)
         adj = {labs[i]: [] for i in order}
         for u, v, w in edges:
-            adj[labs[u]].append((labs[v], w))
+            adj[labs[u]].append((_fresh(labs[v]), w))  # equal-but-distinct label objects
             if u != v:
-                adj[labs[v]].append((labs[u], w))
+                adj[labs[v]].append((_fresh(labs[u]), w))
         for k in adj:
             r.shuffle(adj[k])
             if case.get("tuple_adj"):
                 adj[k] = tuple(adj[k])
         for start in ("given", "none"):
-            kw = {"start": labs[case["start"]]} if start == "given" else {}
+            kw = {"start": _fresh(labs[case["start"]])} if start == "given" else {}
             who = f"prim[{scheme},start={start}]"
             res = call(obs, _mst.prim, dict(adj), what=who, budget=budget, **kw)
             if is_crash(res):
